@@ -55,12 +55,13 @@ func tokNL(s string) string {
 }
 
 type c14Form struct {
-	name   string
-	tags   []string            // expected start-tag sequence
-	attrs  map[string][]string // tag#ordinal -> expected attribute names
-	fields []string            // hidden fields that carry peer strings
-	render func(urlStr, payload, relay string) ([]byte, error)
-	script []string // expected script bodies
+	name        string
+	tags        []string            // expected start-tag sequence
+	attrs       map[string][]string // tag#ordinal -> expected attribute names
+	fields      []string            // hidden fields that carry peer strings
+	render      func(urlStr, payload, relay string) ([]byte, error)
+	script      []string // expected script bodies
+	fixedAction string   // when set, the action the form must have whatever the peer string is (the string travels elsewhere, e.g. in the request)
 }
 
 func init() {
@@ -148,6 +149,27 @@ func runC14(c *core.Ctx) {
 				}
 				return w.Body.Bytes(), nil
 			}},
+		// SP-initiated: the peer string arrives INSIDE the AuthnRequest (AssertionConsumerServiceURL next to a valid index, and RelayState);
+		// the form must post to the registered location or the request must be refused
+		{name: "idp-response-sp-initiated", tags: []string{"html", "form", "input", "input", "input", "script", "script"}, fields: []string{"RelayState"},
+			script:      []string{`document.getElementById('SAMLSubmitButton').style.visibility='hidden';`, `document.getElementById('SAMLResponseForm').submit();`},
+			fixedAction: "https://peer.example.com/endpoint",
+			render: func(u, _, relay string) ([]byte, error) {
+				md := *spMD
+				sd := md.SPSSODescriptors[0]
+				sd.KeyDescriptors = nil
+				sd.AssertionConsumerServices = []saml.IndexedEndpoint{{Binding: saml.HTTPPostBinding, Location: "https://peer.example.com/endpoint", Index: 1}}
+				md.SPSSODescriptors = []saml.SPSSODescriptor{sd}
+				idp := harness.NewIDP("idpec", harness.SPRegistry{md.EntityID: &md}, &saml.Session{ID: "s", NameID: "alice", Index: "i", CreateTime: samlgen.T0, ExpireTime: samlgen.T0.Add(time.Hour)})
+				idp.Signer, idp.Key, idp.SignatureMethod = samlgen.Key("idpec").Key, nil, "http://www.w3.org/2001/04/xmldsig-more#ecdsa-sha256"
+				doc := authnRequestXML(samlgen.S(md.EntityID), samlgen.S(samlgen.IDPSSO), samlgen.S("2.0"), samlgen.S(samlgen.TS(samlgen.T0)), samlgen.S(u), samlgen.S("1"), "id-req-c14")
+				w := httptest.NewRecorder()
+				idp.ServeSSO(w, idpRequest("POST", doc, relay))
+				if w.Code != 200 || !strings.Contains(w.Body.String(), "SAMLResponse") {
+					return nil, fmt.Errorf("status %d", w.Code)
+				}
+				return w.Body.Bytes(), nil
+			}},
 	}
 
 	baselines := map[string]*htmlform.Form{}
@@ -198,6 +220,13 @@ func runC14(c *core.Ctx) {
 					if err != nil {
 						t.Outcome("error")
 						return
+					}
+					if f.fixedAction != "" {
+						if hf, e := htmlform.Parse(page); e == nil && hf.Action != f.fixedAction {
+							t.Fail("C14/"+f.name+"/action-is-not-the-registered-location", "the request carried AssertionConsumerServiceURL %+q next to a valid index; the emitted form posts to %q, the registered location is %q", truncStr(u, 60), hf.Action, f.fixedAction)
+							t.Input("page", string(trunc(page, 4000)))
+						}
+						u = f.fixedAction
 					}
 					c14CheckPage(t, f, baselineOf(f), page, u, relay, key)
 				})
@@ -328,7 +357,7 @@ func c14CheckPage(t *core.T, f c14Form, base *htmlform.Form, page []byte, u, rel
 	if scriptScheme(hf.Action) {
 		fail("script-url-in-action", "form action %q resolves to a script-bearing scheme", hf.Action)
 	}
-	if hf.Action != "#ZgotmplZ" && !scriptScheme(u) {
+	if hf.Action != "#ZgotmplZ" && !scriptScheme(u) && u == strings.TrimSpace(u) { // (a URL with blank ends has no agreed reading to compare with)
 		// a benign URL must still be the one the browser posts to (after html/template's percent-normalisation)
 		pu, e1 := url.Parse(strings.TrimSpace(hf.Action))
 		wu, e2 := url.Parse(strings.TrimSpace(u))
